@@ -134,7 +134,8 @@ def run_cases(prop, mod, cases, drv_ok, nproc):
             results.append(_run_one(it))
         return results
     ctx = mp.get_context("fork")
-    chunk = max(1, len(items) // (nproc * 8))
+    # small chunks: expensive cases (e.g. exhaustive enumerations appended to a tier) must not pile up in one worker
+    chunk = max(1, min(4, len(items) // (nproc * 8)))
     with ctx.Pool(nproc, initializer=_worker_init, initargs=(prop, drv_ok)) as pool:
         for r in pool.imap_unordered(_run_one, items, chunksize=chunk):
             results.append(r)
